@@ -6,8 +6,9 @@
     * `regexp.Compile` / `MatchString` / `Match` — the parameter `R : Regex` (Spec/Search.lean); a `[]byte` value is
       matched exactly like a `string` (`re.Match` = `re.MatchString` on the same bytes), so both are `GoVal.str`.
     * the text of a scalar in matchValue's `default:` branch — the parameter `sh`.  In the code that is `scalarText`
-      (fix search/05): `fmt.Sprintf("%v", v)`, except that a float64 with 1e6 ≤ |v| < 1e15 is written positionally
-      (`strconv.FormatFloat(v, 'f', -1, 64)`); the executable instance is `Model.SearchShow.searchScalar`.
+      (fix search/06): `floatText(f, bitSize)` for a float64 / float32 (NaN / Infinity / -Infinity, else
+      `strconv.FormatFloat(f, 'f', -1, 64)` resp. `(f, 'g', -1, 32)`), `fmt.Sprintf("%v", v)` for everything else; the
+      executable instance is `Model.SearchShow.searchScalar`.
     * `sort.Strings` — `List.mergeSort bytesLe` (bytewise order of Go strings).
   A Go map is an association list; ranging over it visits the list in *some* order.  Where the result could depend
   on that order the order is explicit (SearchOrig); `matchMap` only computes an "exists", which is the same for
